@@ -224,7 +224,7 @@ def run(ctx):
     zero = b"\x00\x00\x00"
     ctx.rule = (
         "log_multiply: all 65,536 octet pairs against shift-and-add multiplication mod 0x11D (both tiers; the "
-        "correspondence takes all pairs in thorough, 4,096 seeded pairs + boundary/zero/out-of-range operands in quick). "
+        "correspondence takes all pairs in thorough, 4,096 seeded pairs + all pairs with an operand in {0,1,2,3,127,128,254,255} in quick). "
         "generate/check: messages = the 4 captured LC words of the repository's test, all-zero, all-0xFF, single-symbol "
         "basis messages (9 positions x seeded values; all 9x255 in thorough), messages built so that the LFSR feedback symbol "
         "takes every value 0..255 (every position in thorough; the zero-feedback step on a non-zero register at every position "
@@ -233,7 +233,8 @@ def run(ctx):
         "per generated word: every single position with a seeded value, seeded 2- and 3-symbol errors (in thorough every "
         "position pair/triple on sampled words and all 12x255 single errors), errors confined to parity, the other masks; "
         "random 12-octet words and words at distance 4 (xor of two code words) through check against independently computed "
-        "syndromes; additivity and GF(256)-homogeneity of generate. A case is non-trivial unless message and mask are all-zero; "
+        "syndromes; additivity and GF(256)-homogeneity of generate. Out-of-domain inputs (other lengths, operands >= 256) are "
+        "compared with the model as a note only. A case is non-trivial unless message and mask are all-zero (a product: unless an operand is 0); "
         "distinct = distinct (operation, operands)."
     )
     ctx.trusted_base += [
